@@ -584,8 +584,13 @@ func (mw *TinkEncryptionPartStoreMiddleware) GetPart(ctx context.Context, tx dat
 // begins.
 func (mw *TinkEncryptionPartStoreMiddleware) readPartHeaderAndDEK(rc io.Reader, partId partstore.PartId) ([]byte, int, int64, error) {
 	// Read the header length (4 bytes big-endian)
+	// Every stored part starts with its header: a stream that ends before the
+	// header is complete is truncated, never a regular (empty) end of data.
 	lengthBytes := make([]byte, 4)
 	if _, err := io.ReadFull(rc, lengthBytes); err != nil {
+		if err == io.EOF {
+			err = io.ErrUnexpectedEOF
+		}
 		return nil, 0, 0, err
 	}
 
@@ -594,6 +599,9 @@ func (mw *TinkEncryptionPartStoreMiddleware) readPartHeaderAndDEK(rc io.Reader, 
 	// Read and parse the header
 	headerBytes := make([]byte, headerLen)
 	if _, err := io.ReadFull(rc, headerBytes); err != nil {
+		if err == io.EOF {
+			err = io.ErrUnexpectedEOF
+		}
 		return nil, 0, 0, err
 	}
 
